@@ -37,7 +37,8 @@ def required_cells(tier):
     return ["distinct-codebase-orders", "distinct-platform-orders", "distinct-scandir-orders", "hashseed", "shuffle", "creation-order",
             "toml-permuted", "duplicates-present", "cov-compared", "clustering-compared", "mode-flag-with-repeated-define", "file-symlinks", "cross-language-alias",
             "platform-names-case-variants", "pass-flags-reordered", "pass-headers-attributed", "clustering-with-case-variant-names",
-            "order-dependent-exclude-patterns", "option-replacing-a-default-per-platform"]
+            "order-dependent-exclude-patterns", "option-replacing-a-default-per-platform", "hard-linked-duplicate",
+            "non-member-header:included-from-fortran-and-c", "non-member-header:forced-by-assembly-and-c"]
 
 
 PASS_CONFIG = """[[compiler.gcc.parser]]
@@ -112,6 +113,7 @@ def gen_case(rng, index=1):
         src = rng.choice(rels)
         case["dups"][f"extra/copy{i}_{os.path.basename(src)}"] = src
     case["dups"]["extra/deep/u2.c"] = "extra/u.c"
+    case["hard"] = {"extra/deep/hl_u.c": "extra/u.c"}      # a second directory entry for a file that also has a copy
     return case
 
 
@@ -142,6 +144,9 @@ def build(case, base, order_seed):
         os.makedirs(os.path.join(root, ".cbi"), exist_ok=True)
         with open(os.path.join(root, ".cbi", "config"), "w") as f:
             f.write(PASS_CONFIG.replace("@ROOT@", os.path.realpath(root)))
+    for l, t in sorted(case.get("hard", {}).items()):
+        os.makedirs(os.path.dirname(os.path.join(root, l)), exist_ok=True)
+        os.link(os.path.join(root, t), os.path.join(root, l))
     links = sorted(case.get("links", {}).items())
     random.Random(order_seed + 1).shuffle(links)
     for l, t in links:
@@ -239,6 +244,8 @@ def check_case(ctx, case, base, cls, do_clustering=False):
                 ("creation-order", dict(hashseed="0", shuffle=None, order=7, perm=0)),
                 ("toml-permuted", dict(hashseed="0", shuffle=None, order=0, perm=5))]
     cells = {"duplicates-present", "file-symlinks"}
+    if case.get("hard"):
+        cells.add("hard-linked-duplicate")
     if os.path.islink(os.path.join(root, "extra/f_alias.inc")):
         cells.add("cross-language-alias")
     if any(tu.get("extra_args") for tu in case["tus"]):
@@ -311,9 +318,71 @@ def check_case(ctx, case, base, cls, do_clustering=False):
                          "summary_rows": base_obs["summary_rows"], "duplicates": base_obs["duplicates"]})
 
 
+def mixed_language_scenarios(ctx, base):
+    """Two fixed scenarios in which the order of the [platform.*] tables decides which command reaches a header that is
+    NOT a member of the code base first (members are parsed up front, by extension):
+      A  a header outside the root, #included by a free-form Fortran file (platform f) and by a C file (platform c);
+      B  a generated header excluded by pattern, forced with -include by an assembly file and by a C file.
+    Both are run twice in fresh processes with the platform tables in either order; the results must be equal."""
+    acc = ctx.acc
+    for name in ("A", "B"):
+        d = os.path.join(base, "mixed" + name)
+        shutil.rmtree(d, ignore_errors=True)
+        root = os.path.join(d, "root")
+        os.makedirs(os.path.join(root, "build"))
+        os.makedirs(os.path.join(d, "ext"))
+        hdr = "! shared settings: don't edit\n#define FROM_H 1\n/* C comment\n#define IN_C_COMMENT 1\n*/\n"
+        if name == "A":
+            files = {"a.f90": "program p\n#include \"shared.h\"\n#ifdef FROM_H\n  x = 1\n#endif\n#ifdef IN_C_COMMENT\n  y = 2\n#endif\nend program p\n",
+                     "b.c": "#include \"shared.h\"\n#ifdef FROM_H\nint x;\n#endif\n#ifdef IN_C_COMMENT\nint y;\n#endif\n"}
+            with open(os.path.join(d, "ext", "shared.h"), "w") as f:
+                f.write(hdr)
+            dbs = {"f": [{"file": "a.f90", "arguments": ["gfortran", "-I", os.path.join(d, "ext"), "-c", "a.f90"]}],
+                   "c": [{"file": "b.c", "arguments": ["gcc", "-I", os.path.join(d, "ext"), "-c", "b.c"]}]}
+            excl = []
+        else:
+            files = {"startup.S": "#ifdef HAVE_FAST_PATH\n  mov r0, r1\n#else\n  mov r1, r0\n#endif\n",
+                     "main.c": "#ifdef HAVE_FAST_PATH\nint fast;\n#else\nint slow;\nint slower;\n#endif\n",
+                     "build/config.h": "// generated -- don't edit\n#define HAVE_FAST_PATH 1\n"}
+            dbs = {"x86": [{"file": "startup.S", "arguments": ["gcc", "-include", "build/config.h", "-c", "startup.S"]},
+                           {"file": "main.c", "arguments": ["gcc", "-include", "build/config.h", "-c", "main.c"]}],
+                   "arm": [{"file": "main.c", "arguments": ["gcc", "-include", "build/config.h", "-c", "main.c"]}]}
+            excl = ["build/"]
+        for rel, text in files.items():
+            with open(os.path.join(root, rel), "w") as f:
+                f.write(text)
+        for p, es in dbs.items():
+            with open(os.path.join(root, p + ".json"), "w") as f:
+                json.dump([dict(e, directory=root) for e in es], f)
+        results = []
+        for order in (sorted(dbs), sorted(dbs, reverse=True)):
+            with open(os.path.join(root, "analysis.toml"), "w") as f:
+                if excl:
+                    f.write("[codebase]\nexclude = [%s]\n\n" % ", ".join('"%s"' % x for x in excl))
+                for p in order:
+                    f.write(f"[platform.{p}]\ncommands = \"{p}.json\"\n\n")
+            dump = os.path.join(d, "dump.json")
+            rc, out, err = cli.run("codebasin", ["-R", "summary", "analysis.toml"], root, launch={"dump": dump})
+            acc.hook("cli-runs")
+            if rc != 0:
+                results.append({"error": err[-300:]})
+                continue
+            dd = json.load(open(dump))
+            results.append({"setmap": dd["setmap"], "attribution": {os.path.relpath(k, root): v for k, v in dd["attribution"].items()}})
+        cells = {"non-member-header:" + ("included-from-fortran-and-c" if name == "A" else "forced-by-assembly-and-c")}
+        rec = {"input": {"scenario": name}, "witness": {"scenario": name, "orders": [sorted(dbs), sorted(dbs, reverse=True)],
+                                                         "setmaps": [r.get("setmap", r.get("error")) for r in results]}}
+        if results[0] != results[1]:
+            acc.violated(rec, mechanism="non-member-header-parsed-in-the-language-of-its-first-includer" if name == "A" else None, cells=cells, cls="mixed")
+        else:
+            acc.held(cells=cells, cls="mixed", nontrivial={"scenario": name})
+
+
 def run_shard(ctx):
     b = bounds(ctx.tier)
     base = os.path.join(ctx.scratch, "c14")
+    if ctx.shard == 0:
+        mixed_language_scenarios(ctx, base)
     rng = ctx.rng("cases")
     for i in range(b["cases"]):
         case = gen_case(rng, i)
